@@ -180,7 +180,44 @@ def _real_utils(name, args):
     raise KeyError(name)
 
 
+def _real_io(name, args):
+    import io as _io
+    import numpy as np
+    import verde.io as vio
+
+    def text(tokline):
+        if tokline == "-":
+            return ""
+        out = []
+        for t in tokline.split(","):
+            out.append("abc" if t == "b" else (t[2:] if t[0] == "i" else repr(float(C.tofrac(t[2:])))))
+        return " ".join(out)
+    fr = lambda v: C.frs(Fraction(float(v)))  # noqa: E731
+    if name == "readHeader":
+        body = "\n".join([args[0] if args[0] != "-" else ""] + [text(t) for t in args[1:5]]) + "\n1 2 3\n"
+        try:
+            gid, shape, region, rng = vio._read_surfer_header(_io.StringIO(body))
+        except ValueError:
+            return ["err"]
+        return [gid or "-", ",".join(str(int(v)) for v in shape) or "-", ",".join(fr(v) for v in region), ",".join(fr(v) for v in rng) or "-"]
+    if name == "checkIntegrity":
+        rows = [[float(C.tofrac(v)) for v in r.split(",")] for r in args[0].split(";")]
+        field = np.array(rows[0]) if len(rows) == 1 else np.array(rows)
+        shape = tuple(int(v) for v in args[1].split(",")) if args[1] != "-" else ()
+        rng = [float(C.tofrac(v)) for v in args[2].split(",")] if args[2] != "-" else []
+        try:
+            vio._check_surfer_integrity(field, shape, rng)
+        except IOError:
+            return ["err"]
+        except ValueError:
+            return ["err2"]
+        return ["ok"]
+    raise KeyError(name)
+
+
 def _differs(kind, a, b):
+    if kind == "io":
+        return list(a) != list(b)
     if len(a) != len(b):
         return True
     for x, y in zip(a, b):
@@ -215,14 +252,14 @@ def search(kind, limit=5):
     """Returns (found, stats).  found: list of dicts with definition, inputs, gen, model, impl."""
     stats = {"probes": 0, "gen_differs_from_model": 0, "real_code_differs_too": 0, "error": None}
 
-    r = C._locked(["sh", "-c", "lake build VerdeModel.Gen.Kernels VerdeModel.Gen.Coords VerdeModel.Gen.Trend VerdeModel.Gen.Utils >&2 && "
+    r = C._locked(["sh", "-c", "lake build VerdeModel.Gen.Kernels VerdeModel.Gen.Coords VerdeModel.Gen.Trend VerdeModel.Gen.Utils VerdeModel.Gen.IO >&2 && "
                    f"lake env lean --run GenEval.lean {kind}"], C.LEAN_DIR, 1500)
     if r.returncode != 0:
         stats["error"] = "translated definitions do not evaluate: " + (r.stdout + r.stderr)[-800:]
         return [], stats
     out = r.stdout
     found = []
-    real = {"kernels": _real_kernels, "utils": _real_utils}.get(kind, _real_coords)
+    real = {"kernels": _real_kernels, "utils": _real_utils, "io": _real_io}.get(kind, _real_coords)
     for line in out.splitlines():
         parts = [p.split() for p in line.split("|")]
         if len(parts) != 3:
@@ -251,7 +288,7 @@ def search(kind, limit=5):
 
 def rerun(kind, items):
     """Replay: re-evaluate the real functions at the recorded inputs and compare with the recorded model values."""
-    real = {"kernels": _real_kernels, "utils": _real_utils}.get(kind, _real_coords)
+    real = {"kernels": _real_kernels, "utils": _real_utils, "io": _real_io}.get(kind, _real_coords)
     bad = 0
     for it in items:
         try:
